@@ -33,14 +33,32 @@ pub enum FsyncSchedule {
     NoFsync,  // disable fsyncing entirely (maximum throughput, no durability)
 }
 
+#[cfg(not(walrus_verif_tiny))]
 pub(crate) const DEFAULT_BLOCK_SIZE: u64 = 10 * 1024 * 1024; // 10mb
+#[cfg(not(walrus_verif_tiny))]
 pub(crate) const BLOCKS_PER_FILE: u64 = 100;
+#[cfg(not(walrus_verif_tiny))]
 pub(crate) const MAX_ALLOC: u64 = 1 * 1024 * 1024 * 1024; // 1 GiB cap per block
+// Verification-only geometry (see /verif/DESIGN.md section 5): small enough that block rotation,
+// multi-unit blocks, file roll-over, reclamation and the batch caps are reachable by
+// model-sized operation sequences.
+#[cfg(walrus_verif_tiny)]
+pub(crate) const DEFAULT_BLOCK_SIZE: u64 = 2048;
+#[cfg(walrus_verif_tiny)]
+pub(crate) const BLOCKS_PER_FILE: u64 = 4;
+#[cfg(walrus_verif_tiny)]
+pub(crate) const MAX_ALLOC: u64 = 8192;
 // Expose so integration tests can match the on-disk layout when poking raw files.
 pub const PREFIX_META_SIZE: usize = 256;
 pub(crate) const MAX_FILE_SIZE: u64 = DEFAULT_BLOCK_SIZE * BLOCKS_PER_FILE;
+#[cfg(not(walrus_verif_tiny))]
 pub(crate) const MAX_BATCH_ENTRIES: usize = 2000;
+#[cfg(not(walrus_verif_tiny))]
 pub(crate) const MAX_BATCH_BYTES: u64 = 10 * 1024 * 1024 * 1024; // 10 GiB total payload limit
+#[cfg(walrus_verif_tiny)]
+pub(crate) const MAX_BATCH_ENTRIES: usize = 6;
+#[cfg(walrus_verif_tiny)]
+pub(crate) const MAX_BATCH_BYTES: u64 = 16 * 1024;
 
 static LAST_MILLIS: AtomicU64 = AtomicU64::new(0);
 
@@ -49,6 +67,8 @@ pub(crate) fn now_millis_str() -> String {
         .duration_since(SystemTime::UNIX_EPOCH)
         .unwrap_or_else(|_| std::time::Duration::from_secs(0))
         .as_millis();
+    #[cfg(walrus_verif)]
+    let system_ms = crate::wal::verif::clock_override().unwrap_or(system_ms);
 
     let mut observed = LAST_MILLIS.load(Ordering::Relaxed);
     loop {
